@@ -143,7 +143,8 @@ func (e *Exec) step(st *State, in ssa.Instruction, b *ssa.BasicBlock, idx int) b
 		e.checkAccess(st, loc, true, x)
 		e.escapeIfStored(st, loc, v)
 		e.storeTo(st, loc, v)
-		e.atAnchor(st, x, nil, nil)
+		// at store: arg0 is the address stored through, arg1 the value stored
+		e.atAnchor(st, x, []Val{{T: []string{addr.T[0]}, Typ: x.Addr.Type()}, v}, nil)
 	case *ssa.Call:
 		return e.call(st, x, &x.Call, b, idx)
 	case *ssa.Defer:
